@@ -295,12 +295,17 @@ Out run_case(const Spec& s) {
 
     // ---- (b) placement: the object is found in the voxel it was placed in ----
     std::vector<int> placed;                       // point ids (object id == point id + 1)
+    // one grid in three: the first two objects stored are the largest and the smallest value of the object type (any value of T is an admissible object)
+    const bool extreme_ids = (pr.u64() % 3) == 0; long ext_pt[2] = {-1, -1}; if (extreme_ids) o.bin("grids_storing_the_extreme_values_of_the_object_type");
+    auto enc = [&](size_t i) -> T { if ((long)i == ext_pt[0]) return std::numeric_limits<T>::max(); if ((long)i == ext_pt[1]) return std::numeric_limits<T>::lowest(); return (T)(i + 1); };
+    auto dec = [&](T v) -> long { if (ext_pt[0] >= 0 && v == std::numeric_limits<T>::max()) return ext_pt[0] + 1; if (ext_pt[1] >= 0 && v == std::numeric_limits<T>::lowest()) return ext_pt[1] + 1; return (long)v; };
     std::vector<char> occupied; if (single_slot((G*)nullptr)) occupied.assign(stor, 0);
     for (size_t i = 0; i < NP; i++) {
         const Pt& p = s.pts[i]; if (!p.store) continue;
         if (!usable[i]) { o.bin("not_placed:index_out_of_range"); continue; }
         if (single_slot((G*)nullptr)) { if (occupied[flat[i]]) { o.bin("not_placed:voxel_occupied_single_slot_grid"); continue; } occupied[flat[i]] = 1; }
-        const T id = (T)(i + 1);
+        if (extreme_ids && ext_pt[0] < 0) ext_pt[0] = (long)i; else if (extreme_ids && ext_pt[1] < 0) ext_pt[1] = (long)i;
+        const T id = enc(i);
         const char* path = place(g, id, p.x, idx[i], (int)(pr.u64() % 15));
         c_path[path]++; c_placed_origin[p.origin]++;
         int nbnd = 0; for (int a = 0; a < 3; a++) nbnd += p.bnd(a, s.lo, s.hi) != 0; c_placed_geom[nbnd]++;
@@ -315,7 +320,7 @@ Out run_case(const Spec& s) {
         std::vector<std::pair<size_t, int>> byv; byv.reserve(placed.size()); for (int i : placed) byv.push_back({flat[i], i});
         std::sort(byv.begin(), byv.end());
         for (size_t a = 0; a < byv.size();) {
-            size_t b = a; std::vector<T> expect; while (b < byv.size() && byv[b].first == byv[a].first) { expect.push_back((T)(byv[b].second + 1)); b++; }
+            size_t b = a; std::vector<T> expect; while (b < byv.size() && byv[b].first == byv[a].first) { expect.push_back(enc((size_t)byv[b].second)); b++; }
             const int i0 = byv[a].second; std::vector<T> got = voxel_all(g, idx[i0][0], idx[i0][1], idx[i0][2]);
             std::sort(expect.begin(), expect.end()); std::sort(got.begin(), got.end());
             o.maxi("objects_in_one_voxel", (double)expect.size());
@@ -326,7 +331,7 @@ Out run_case(const Spec& s) {
     }
     // ---- (d) full content = the placed multiset, each object exactly once ----
     {
-        auto c = g.get_grid_content(); std::vector<long> got; for (const T& v : c) got.push_back((long)v); std::sort(got.begin(), got.end());
+        auto c = g.get_grid_content(); std::vector<long> got; for (const T& v : c) got.push_back(dec(v)); std::sort(got.begin(), got.end());
         std::vector<long> expect; for (int i : placed) expect.push_back(i + 1); std::sort(expect.begin(), expect.end());
         if (got != expect) {
             std::string what = "unknown";
@@ -356,7 +361,7 @@ Out run_case(const Spec& s) {
             const bool by_index = (pr.u64() % 4) == 0;
             auto nbh = by_index ? g.get_neighborhood(idx[i][0], idx[i][1], idx[i][2]) : (pr.u64() & 1) ? g.get_neighborhood(vec3(p.x[0], p.x[1], p.x[2])) : g.get_neighborhood(p.x[0], p.x[1], p.x[2]);
             c_query_via[by_index ? 1 : 0]++;
-            long cnt = 0; for (const T& v : nbh) { long id = (long)v; cnt++; if (id >= 1 && id <= (long)NP) stamp[id] = (int)i; else if (o.open()) o.viol("neighbourhood_unknown_object", "neighbourhood returned an object that was never placed", pt_json(s, p, idx[i], nb)); }
+            long cnt = 0; for (const T& v : nbh) { long id = dec(v); cnt++; if (id >= 1 && id <= (long)NP) stamp[id] = (int)i; else if (o.open()) o.viol("neighbourhood_unknown_object", "neighbourhood returned an object that was never placed", pt_json(s, p, idx[i], nb)); }
             returned += cnt; o.maxi("neighbourhood_size", (double)cnt);
             int nbnd = 0; for (int a = 0; a < 3; a++) nbnd += p.bnd(a, s.lo, s.hi) != 0; c_query_geom[nbnd]++;
             size_t k0 = std::lower_bound(key.begin(), key.end(), p.x[ax] - s.vs * 1.0000001) - key.begin();
